@@ -1,9 +1,9 @@
 SPECIFICATION MCSpec
-CONSTANT Variant = "two"
+CONSTANT Variant = "latestart"
 CONSTANT StrictEvents = TRUE
 CONSTANT FixF5 = TRUE
 CONSTANT FixF26 = TRUE
-CONSTANT FixF27 = TRUE
+CONSTANT FixF27 = FALSE
 CONSTANT FixF28 = TRUE
 CONSTANT FixF23 = TRUE
 CONSTANT AddFirst = TRUE
